@@ -9,7 +9,7 @@ Import ListNotations.
 
 Definition str := list N.
 Definition comp := str.
-Definition name := list comp.
+Notation name := (list comp) (only parsing).
 Definition slash : N := 47%N.
 
 Fixpoint str_eqb (a b : str) : bool :=
